@@ -170,6 +170,19 @@ class Prog:
         self.need(s, "i")
         return self._add(op, [s], ["i"], [True], "%s::<'%s>(v::%s_red)" % (op, pers, fn), fn=fn, pers=[pers])
 
+    def lattice(self, s, pers="tick", op="lattice_fold"):
+        """lattice_fold / lattice_reduce over Max<i64>: modelled as fold / reduce with max"""
+        self.need(s, "i")
+        mx = "dfir_rs::lattices::Max"
+        if op == "lattice_fold":
+            txt = "map(%s::new) -> lattice_fold::<'%s>(|| %s::new(0i64)) -> map(|m: %s<i64>| m.into_reveal())" % (mx, pers, mx, mx)
+            r = self._add("fold", [s], ["i"], [True], txt, fn="max", pers=[pers])
+        else:
+            txt = "map(%s::new) -> lattice_reduce::<'%s>() -> map(|m: %s<i64>| m.into_reveal())" % (mx, pers, mx)
+            r = self._add("reduce", [s], ["i"], [True], txt, fn="max", pers=[pers])
+        self.tags.add("%s|%s" % (op, pers))
+        return r
+
     def fold_keyed(self, s, fn, pers="tick"):
         self.need(s, "p")
         return self._add("fold_keyed", [s], ["p"], [False],
@@ -723,6 +736,8 @@ def corpus():
     side("unique", [lambda p, s, pers=pers: p.unique(s, pers) for pers in TS])
     side("enumerate", [lambda p, s, pers=pers: p.map(p.enumerate(s, pers), "sum_pair") for pers in TS])
     side("scan", [lambda p, s, pers=pers: p.scan(s, "running_sum", pers) for pers in TS])
+    side("lattice_fold", [lambda p, s, pers=pers: p.lattice(s, pers, "lattice_fold") for pers in TS])
+    side("lattice_reduce", [lambda p, s, pers=pers: p.lattice(s, pers, "lattice_reduce") for pers in TS])
     side("persist_sort", [lambda p, s: p.persist(s), lambda p, s: p.sort(s), lambda p, s: p.sort_by_key(s, "id")])
     side("flat_filter", [lambda p, s: p.filter_map(p.flat_map(p.filter(s, "gt1"), "dup"), "half_even")])
 
@@ -1650,10 +1665,15 @@ def main():
         src.append(e["prog"].rust_fn(fname, e["deco"], sh()))
         src.append("")
         table.append("        %d => %s(steps, out)," % (e["id"], fname))
+        body = e["prog"].rust_body(e["deco"], sh())
+        tags = set(e["prog"].tags)
+        for opn in ("tee", "null", "handoff", "identity"):
+            if "%s()" % opn in body:
+                tags.add(opn + "|-")
         meta.append({"id": e["id"], "name": e["name"], "prop": e["prop"], "base": e["base"],
-                     "variant": e["variant"], "desc": e["prog"].desc(), "tags": sorted(e["prog"].tags),
+                     "variant": e["variant"], "desc": e["prog"].desc(), "tags": sorted(tags),
                      "avail_ok": e["prog"].avail_term, "calibration": e["prog"].expect is not None,
-                     "text": e["prog"].rust_body(e["deco"], sh())})
+                     "text": body})
     src.append("pub fn run(id: u32, steps: &Value, out: &mut Trace) -> bool {")
     src.append("    match id {")
     src.extend(table)
